@@ -60,7 +60,8 @@ def search(res, tier, seed, deep=False):
                     if var == "tas":
                         mk = lambda m, s: 280 + s + 8 * np.sin(np.arange(m) * 2 * np.pi / 365.25) + rs.normal(0, 2, m)
                     else:
-                        mk = lambda m, s: rs.gamma(0.9, 6e-5 * (1 + s), m) + 2e-6     # strictly positive, above the censoring threshold
+                        tiny = 1e-3 if (name in ("LinearScaling", "DeltaChange") and (rnd + seed) % 2 == 0) else 1.0    # very small fluxes now and then
+                        mk = lambda m, s: (rs.gamma(0.9, 6e-5 * (1 + s), m) + 2e-6) * tiny     # strictly positive, above the censoring threshold
                     obs, fut = mk(n, 0), mk(nF, 0.5)
                     tO = create_array_of_consecutive_dates(n, np.datetime64("1980-01-01")); tF = create_array_of_consecutive_dates(nF, np.datetime64("2040-01-01"))
                     inp = dict(debiaser=name, variable=var, window_mode=mode, n=[n, nF], seed=seed)
